@@ -454,9 +454,7 @@ def gcase_lit(m, obs):
                     for (i, j), a in g.arcs.items()])
     names = list(m.port_frequency.keys())
     pf = lit.lst([lit.pair(lit.nat(names.index(k)), lit.q(F(float(v)))) for k, v in m.port_frequency.items()])
-    # float results -> exact values
-    o2 = dict(obs)
-    return lit.tup(ws, arcs, lit.q(F(m.time_horizon)), pf, wimpl_lit_float(o2, names))
+    return lit.tup(ws, arcs, lit.q(F(m.time_horizon)), pf, wimpl_lit_float(obs, names))
 
 
 def wimpl_lit_float(obs, names):
@@ -634,7 +632,7 @@ def run_part(ctx):
     mism, err = ctx.coq_mismatches("wrap", HEADER, "wcase", "check_wcase", terms, shard=20)
     if err is None and canary_idx is not None:
         hit = [t for i, t in mism if i == canary_idx]
-        if not hit or sorted(hit[0]) != [3, 4]:
+        if not hit or not {3, 4} <= set(hit[0]):
             ctx.tooling_failure("correspondence/wrap-canary", f"the planted mismatch was answered {hit}")
         mism = [(i, t) for i, t in mism if i != canary_idx]
     for idx, tags in mism[:1]:
